@@ -50,12 +50,14 @@ class Pool4:
         for sp, (ncg, naa) in SIZES.items():
             self.cg_names[sp] = ['%s%d' % (sp, i + 1) for i in range(ncg)]
             self.aa_names[sp] = ['%sX%d' % (sp, i + 1) for i in range(naa)]
-            for sub in ('pool', 'explicit'):
+            for sub in ('pool', 'explicit', 'renamed'):
                 d = os.path.join(root, sub)
+                os.makedirs(d, exist_ok=True)
                 synth.write_itp(os.path.join(d, '%s_CG.itp' % sp), sp, [(an, sp * 3, 1) for an in self.cg_names[sp]],
                                 [(i, i + 1) for i in range(1, ncg)])
-                synth.write_itp(os.path.join(d, '%s_AA.itp' % sp), sp, [(an, sp * 3, 1) for an in self.aa_names[sp]],
-                                [(i, i + 1) for i in range(1, naa)])
+                # 'renamed': the final-resolution topology calls the molecule differently (explicit triples only)
+                synth.write_itp(os.path.join(d, '%s_AA.itp' % sp), sp if sub != 'renamed' else sp + '_allatom',
+                                [(an, sp * 3, 1) for an in self.aa_names[sp]], [(i, i + 1) for i in range(1, naa)])
                 pos = np.cumsum(rng.normal(size=(naa, 3)) * 0.08, axis=0) + 1.0
                 synth.write_gro(os.path.join(d, '%s_AA.gro' % sp), [(1, sp * 3, an, i + 1, tuple(float('%.3f' % v) for v in pos[i]))
                                                                    for i, an in enumerate(self.aa_names[sp])])
@@ -301,7 +303,7 @@ def check(run):
         disc, mapped = expect(c, present)
         files = [pool4.path(tuple(f)) for f in cands]
         r.shuffle(files)
-        known = [pool4.triple(s, 'explicit') for s in explicit]
+        known = [pool4.triple(s, 'renamed' if (not auto and k % 4 == 3) else 'explicit') for s in explicit]
         plan = {'k': k, 'c': c, 'auto': auto, 'mapped': mapped, 'files': files, 'known': known, 'sysfile': sysfile, 'ev': []}
         if auto:
             try:
